@@ -2,6 +2,8 @@ package main
 
 import (
 	"fmt"
+	"strings"
+	"time"
 
 	"verif/internal/drive"
 	"verif/internal/gen"
@@ -33,7 +35,65 @@ func (c03) Plan(tier string, seed int64) []mon.Workload {
 	if tier == "thorough" {
 		n = 150000
 	}
-	return []mon.Workload{{Name: "programs", N: n}}
+	return []mon.Workload{{Name: "programs", N: n}, {Name: "loop-scope", N: int64(len(c03Loops) * len(c03Bodies) * len(c03Vars)), Exhaustive: true}}
+}
+
+// loop-scope: every loop form x body template x variable kind. The body
+// reads the variable BEFORE assigning it in each iteration (a body-local
+// variable must be gone again: the read sees the outer variable, the point
+// key or nil), assigns it, and leaves the iteration normally, by continue, or
+// by break, at different places.
+var c03Loops = []string{
+	"for i = 0; i < 3; i = i + 1 {\n%s}\n",
+	"i = 0\nfor ; i < 3; i = i + 1 {\n%s}\n",
+	"for i = 0; i < 3; {\n  i = i + 1\n%s}\n",
+	"i = 0\nfor ; ; {\n  i = i + 1\n  if i > 3 { break }\n%s}\n",
+	"for i = 0; ; i = i + 1 {\n  if i >= 3 { break }\n%s}\n",
+	"for i in [1, 2, 3] {\n%s}\n",
+	"for i in \"abc\" {\n%s}\n",
+	"for i in {\"only\": 1} {\n%s}\nfor i in [7, 8] {\n%s}\n",
+	"for j = 0; j < 2; j = j + 1 {\n  for i = 0; i < 2; i = i + 1 {\n%s  }\n  p(j, V)\n}\n",
+	"if true {\n  for i = 0; i < 3; i = i + 1 {\n%s  }\n  p(V)\n}\n",
+}
+var c03Bodies = []string{
+	"  p(V, i)\n  V = i\n  p(V)\n",
+	"  p(V, i)\n  V = i\n  continue\n  p(\"dead\")\n",
+	"  p(V, i)\n  V = i\n  if i == 1 || i == \"a\" { continue }\n  W = V\n  p(V, W)\n",
+	"  p(V, W, i)\n  if i == 2 || i == \"b\" { V = \"set-before-break\"\n break }\n  V = i\n  W = 5\n",
+	"  p(V, i)\n  V = [i]\n  if true { if i { continue } }\n  p(\"after\", V)\n",
+	"  p(V, W)\n  if i != 0 { W = i\n V = W\n continue }\n  V = \"first\"\n",
+	"  p(V)\n  V += 1\n  p(V)\n  if i == 1 { continue }\n  W = 1\n",
+	"  if i == 0 || i == 1 { V = \"early\"\n continue }\n  p(V, i)\n",
+}
+var c03Vars = []string{"fresh", "f1", "outer", "t1"}
+
+func c03LoopScope(i int64) progCase {
+	vi := int(i % int64(len(c03Vars)))
+	i /= int64(len(c03Vars))
+	bi := int(i % int64(len(c03Bodies)))
+	li := int(i / int64(len(c03Bodies)))
+	v := c03Vars[vi]
+	body := strings.ReplaceAll(strings.ReplaceAll(c03Bodies[bi], "V", v), "W", "w2")
+	text := ""
+	if v == "outer" {
+		text = "outer = \"outer-value\"\n"
+	}
+	text += strings.ReplaceAll(strings.ReplaceAll(c03Loops[li], "%s", body), "V", v) + "p(" + v + ", w2, i)\n"
+	o := drive.Parse("loop-scope", text)
+	if o.Err != nil {
+		panic("c03: loop-scope program does not parse: " + text + ": " + o.Err.Error())
+	}
+	l, err := gt.FromStmts(o.Stmts)
+	if err != nil {
+		panic(err)
+	}
+	stmts := gt.CloneStmts(l)
+	pc := progCase{Stmts: stmts, Src: gt.Print(stmts, nil)}
+	pc.Points = []*ref.Point{
+		ref.NewPoint("m", map[string]string{"t1": "tag-value"}, map[string]any{"f1": "field-value", "message": "msg"}, time.Unix(1700000000, 0)),
+		ref.NewPoint("m", nil, map[string]any{"f1": int64(41)}, time.Unix(1700000000, 0)),
+	}
+	return pc
 }
 
 type progCase struct {
@@ -64,6 +124,9 @@ func (c03) build(c *mon.Ctx) progCase {
 }
 
 func (k c03) Describe(c *mon.Ctx, workload string, i int64) any {
+	if workload == "loop-scope" {
+		return map[string]any{"source": c03LoopScope(i).Src}
+	}
 	pc := k.build(c)
 	pts := []string{}
 	for _, p := range pc.Points {
@@ -98,6 +161,10 @@ func nestedAssign(l []*gt.T) (loopOrBranch, nested bool) {
 }
 
 func (k c03) Run(c *mon.Ctx, workload string, i int64) {
+	if workload == "loop-scope" {
+		runV1Compare(c, c03LoopScope(i), "c03.p")
+		return
+	}
 	pc := k.build(c)
 	runV1Compare(c, pc, "c03.p")
 }
